@@ -509,3 +509,33 @@ Theorem C19_factory_html_safe : forall code c i,
   (forall ch, In ch (html_escape (or_empty (i_detail i))) -> is_markup ch = false /\ ch <? 128 = true).
 Proof. exact factory_html_safe. Qed.
 Print Assumptions C19_factory_html_safe.
+
+(* ================= proof-only round 3: class names are unique ================= *)
+Require Import Verif.Proofs.C19_names.
+
+(* every class name of the table regenerated from the source occurs once; hence a class of the table is the
+   class found under its name *)
+Theorem C19_class_names_unique : names_unique_b classes = true.
+Proof. exact class_names_unique. Qed.
+Print Assumptions C19_class_names_unique.
+Theorem C19_find_cls_of_member : forall c, In c classes -> find_cls (c_name c) classes = Some c.
+Proof. exact find_cls_of_member. Qed.
+Print Assumptions C19_find_cls_of_member.
+
+(* exception_response(code): the class picked is the class the regenerated constructors / prepare run on *)
+Theorem C19_factory_model_class : forall code c i,
+  status_class code = Some c -> i_cls i = c_name c ->
+  model i = Some (rmap fst (gen_call (fun _ _ => i_offers i) (gen_obj c i) (i_environ i))).
+Proof. exact factory_model_class. Qed.
+Print Assumptions C19_factory_model_class.
+
+(* C19_factory_html_safe without its find_cls hypothesis *)
+Theorem C19_factory_html_safe_full : forall code c i,
+  status_class code = Some c -> i_cls i = c_name c ->
+  c_empty c = false -> c_default_tmpl c = true -> i_tmpl i = None -> i_comment i = None -> chosen_type i = t_html ->
+  c_code c = code /\
+  model i = Some (rmap (mkOutput (status_of c) t_html cs_utf8)
+                       (utf8_bytes (page_pre c (expl_of c i) ++ html_escape (or_empty (i_detail i)) ++ page_post))) /\
+  (forall ch, In ch (html_escape (or_empty (i_detail i))) -> is_markup ch = false /\ ch <? 128 = true).
+Proof. exact factory_html_safe_full. Qed.
+Print Assumptions C19_factory_html_safe_full.
